@@ -46,6 +46,11 @@ def paths_for(kind, mat):
                 ("default", {"how": "pem", "text": pem(spki, crlf=True), "scheme": "ed25519", "std": True}),
                 ("default", {"how": "pem", "text": pem(spki, trailing=False), "scheme": "ed25519", "std": True}),
                 ("none", {"how": "json", "value": {"keytype": "ed25519", "scheme": "ed25519", "keyval": {"public": raw.hex()}}}),
+                # a present-but-empty list is a third, distinct description
+                ("empty", {"how": "json", "value": {"keytype": "ed25519", "scheme": "ed25519", "keyid_hash_algorithms": [],
+                                                    "keyval": {"public": raw.hex()}}}),
+                ("sha512only", {"how": "json", "value": {"keytype": "ed25519", "scheme": "ed25519", "keyid_hash_algorithms": ["sha512"],
+                                                         "keyval": {"public": raw.hex()}}}),
                 ("default", {"how": "json", "value": {"keytype": "ed25519", "scheme": "ed25519", "keyid_hash_algorithms": HA,
                                                       "keyval": {"public": raw.hex()}}})]
         if "seed" in mat:
@@ -63,6 +68,8 @@ def paths_for(kind, mat):
                 ("default", {"how": "pem", "text": pem(spki), "scheme": "ecdsa-sha2-nistp256", "std": True}),
                 ("default", {"how": "pem", "text": pem(spki, crlf=True), "scheme": "ecdsa-sha2-nistp256", "std": True}),
                 ("none", {"how": "json", "value": {"keytype": "ecdsa", "scheme": "ecdsa-sha2-nistp256", "keyval": {"public": raw.hex()}}}),
+                ("empty", {"how": "json", "value": {"keytype": "ecdsa", "scheme": "ecdsa-sha2-nistp256", "keyid_hash_algorithms": [],
+                                                    "keyval": {"public": raw.hex()}}}),
                 ("default", {"how": "json", "value": {"keytype": "ecdsa", "scheme": "ecdsa-sha2-nistp256", "keyid_hash_algorithms": HA,
                                                       "keyval": {"public": raw.hex()}}})]
         if "pk8" in mat:
@@ -71,7 +78,11 @@ def paths_for(kind, mat):
         spki = mat["spki"]
         for scheme in ("rsassa-pss-sha256", "rsassa-pss-sha512"):
             v = "default:" + scheme
-            out += [(v, {"how": "spki", "hex": spki.hex(), "scheme": scheme, "std": True}),
+            out += [("empty:" + scheme, {"how": "json", "value": {"keytype": "rsa", "scheme": scheme, "keyid_hash_algorithms": [],
+                                                                  "keyval": {"public": pem(spki, trailing=False)}}}),
+                    ("none:" + scheme, {"how": "json", "value": {"keytype": "rsa", "scheme": scheme,
+                                                                 "keyval": {"public": pem(spki, trailing=False)}}}),
+                    (v, {"how": "spki", "hex": spki.hex(), "scheme": scheme, "std": True}),
                     (v, {"how": "pem", "text": pem(spki), "scheme": scheme, "std": True}),
                     (v, {"how": "pem", "text": pem(spki, crlf=True), "scheme": scheme, "std": True}),
                     (v, {"how": "pem", "text": pem(spki, width=76, trailing=False), "scheme": scheme, "std": True}),
@@ -206,8 +217,24 @@ def table_checks(binpath, res, seed, n):
         table = {}
         expect_ids = set()
         for k in names:
-            mode = rng.choice(["own", "own", "others_id", "random_id", "inner_keyid_lies", "wrong_length"])
+            mode = rng.choice(["own", "own", "own_variant", "others_id", "random_id", "inner_keyid_lies", "wrong_length"])
             pub = W.pub(k)
+            if mode == "own_variant":
+                # the same key material described without / with an empty / with another hash-algorithm list: a different
+                # key description with its own id (computed here, independently)
+                pub.pop("keyid", None)
+                v = rng.choice(["absent", "empty", "sha512"])
+                if v == "absent":
+                    pub.pop("keyid_hash_algorithms", None)
+                elif v == "empty":
+                    pub["keyid_hash_algorithms"] = []
+                else:
+                    pub["keyid_hash_algorithms"] = ["sha512"]
+                kid = c11.ref_keyid(pub)
+                pub["keyid"] = kid
+                table[kid] = pub
+                expect_ids.add(kid)
+                continue
             if mode == "own":
                 table[W.kid(k)] = pub
                 expect_ids.add(W.kid(k))
